@@ -527,10 +527,10 @@ class Ref:
 
 
 class Result:
-    __slots__ = ('code', 'pos', 'trace', 'snap', 'ubs', 'fin')
+    __slots__ = ('code', 'pos', 'trace', 'snap', 'ubs', 'fin', 'ended')
 
-    def __init__(s, code, pos, trace, snap, ubs, fin=False):
-        s.code, s.pos, s.trace, s.snap, s.ubs, s.fin = code, pos, trace, snap, ubs, fin
+    def __init__(s, code, pos, trace, snap, ubs, fin=False, ended=False):
+        s.code, s.pos, s.trace, s.snap, s.ubs, s.fin, s.ended = code, pos, trace, snap, ubs, fin, ended
 
 
 def run(prog, bs, nvar, end):
@@ -550,5 +550,5 @@ def run(prog, bs, nvar, end):
             code = 'INCOMPLETE'
         except Break:
             raise Unsupported('break outside loop')
-        return Result(code, r.pos, r.trace, r.snapshot(), r.ubs, fin)
+        return Result(code, r.pos, r.trace, r.snapshot(), r.ubs, fin, r.ended)
     return fn
